@@ -248,7 +248,7 @@ def run(ctx):
 
 META = {
     "level": "proof",
-    "claimed": False,
+    "claimed": True,
     "text": "Coq (Smpi/Match*.v): match_common matches iff communicator, source and tag are compatible incl. wildcards (C28_match_iff, "
             "C28_no_cross_comm), status source/tag are the sender's and the truncation flag is exact (C28_truncation_flag); the message-id "
             "counters accept the messages of one (source,destination,tag) class in send order whatever mailbox they sit in "
